@@ -100,6 +100,9 @@ def failed_line_problems(run: Run):
     return probs
 
 
+UNPAUSES = tuple((t, ("user", "Unpause")) for t in (5, 7, 9, 11))
+
+
 def run_program(lines, schedule=(), horizon=HORIZON):
     return execute("\n".join(lines), schedule=schedule, horizon=horizon, observe=("tags", "mstate"),
                    inputs={2: {"In1": 2.0}})
@@ -118,6 +121,19 @@ def check_program(item):
     out += tick_problems(run)
     out += error_entry_problems(run, lines, injected)
     out += failed_line_problems(run)
+    if schedule == UNPAUSES and len(lines) == 2:
+        # the user resumes after the first failure without editing: when the run reaches the second line and that line fails
+        # (it does when it is the whole method), it must be reported failed too - not left 'started'
+        ms = run.obs[-1]["mstate"]
+        if "L1" in ms["started"] and "L1" not in ms["failed"] and run.obs[-1]["flags"]["started"]:
+            alone = run_program([lines[1]])
+            stats["runs"] += 1
+            if "L0" in alone.obs[-1]["mstate"]["failed"]:
+                out.append(("C13:second-failing-line-not-marked:" + lines[1].strip().split(":")[0],
+                            f"{lines!r} with Unpause at ticks 5,7,9,11: line 2 started and (alone it fails) is not reported failed: {ms}; "
+                            f"error events {[(t, n) for t, n, _ in run.error_events]}"))
+            alone.cleanup()
+        stats["second_failed"] = "L1" in ms["failed"]
     last = run.obs[-1]
     # (a Restart or Stop that is still in progress at the horizon is not a settled error pause: what a further Stop does then
     # is C08's business)
@@ -164,6 +180,9 @@ def corpus(ctx):
             items.append((list(seq), ()))
     for seq in itertools.product(SUB, repeat=3):
         items.append((list(seq), ()))
+    # two lines, the user resumes (Unpause, no edit) after every error pause
+    for seq in itertools.product(ALPHABET, repeat=2):
+        items.append((list(seq), UNPAUSES))
     # injected snippets into a waiting run, at every early tick
     for code in ALPHABET:
         for t in range(1, 6):
@@ -188,22 +207,23 @@ def run(ctx):
     items = corpus(ctx)
     ctx.prove_deterministic(lambda it: check_program(it)[0], [items[1], items[70], items[-1]])
     results = ctx.pmap(check_program, items)
-    runs = errors = withfailed = 0
+    runs = errors = withfailed = second = 0
     outcomes = collections.Counter()
     for it, (viol, st) in zip(items, results):
         runs += st["runs"]
         errors += 1 if st["error"] else 0
         withfailed += 1 if st["failed_line"] else 0
+        second += 1 if st.get("second_failed") else 0
         for sig, what in viol:
             ctx.violation(sig, what, {"lines": it[0], "schedule": [list(x) for x in it[1]]})
     if errors < 50:
         raise HarnessError(f"vacuous: only {errors} executions reached an error state")
     ctx.coverage.update(
         states=runs, transitions=runs * HORIZON, traces_validated_against_impl=runs,
-        evaluations=runs, distinct_nontrivial=errors, executions_with_failed_line=withfailed,
+        evaluations=runs, distinct_nontrivial=errors, executions_with_failed_line=withfailed, executions_with_a_second_failed_line_after_unpause=second,
         programs=len(items), alphabet=len(ALPHABET),
         rule="all methods of 1-2 lines over the hostile alphabet, 3 lines over the sub-alphabet, each snippet injected at ticks 1-5, "
-             "each control command at each tick of each 1-line method; non-trivial = the execution reached Method Status Error "
+             "all 2-line methods with Unpause at ticks 5,7,9,11 (resume after an error pause without editing), each control command at each tick of each 1-line method; non-trivial = the execution reached Method Status Error "
              "(then both continuations Stop and correct+Unpause are executed too)",
         samples=[items[1], items[len(ALPHABET) + 5], items[-1]], exhaustive=True)
     ctx.assumptions += ["X becomes 2.0 at tick 2", "horizon 14 ticks"]
